@@ -188,7 +188,10 @@ def must_check(rep, model):
         e = good[0]
         # path condition: only the non-empty-input guard of the ndarray helper may precede it
         pre = [c for c in e['perm'] if not allowed_precondition(c)]
-        if e['guard'] != T.TRUE or e['loops'] or pre:
+        # the same shortcut written as an enclosing `if` instead of an early return: its condition is part of the guard
+        gconj = [] if e['guard'] == T.TRUE else list(e['guard'][1]) if e['guard'][0] == 'and' else [e['guard']]
+        pre += [c for c in gconj if not allowed_precondition(c)]
+        if e['loops'] or pre:
             rep.violation('MUST-CHECK', inst, e['where'], expected='an unconditional check (only a type guard or the empty-input shortcut may precede it)',
                           found=f'check only under {T.brief(T.and_([e["guard"]] + pre), 140)}')
             continue
